@@ -475,9 +475,10 @@ func (s *Scanner) scanLineComment() token.Token {
 		s.readRune()
 	}
 
+	// blanks (and the '\r' of a "\r\n" line end) in front of the line break are not part of the comment
 	return token.Token{
 		Type:     token.COMMENT,
-		Text:     string(s.data[position:s.position]),
+		Text:     strings.TrimRight(string(s.data[position:s.position]), " \t\r\f\v"),
 		Position: s.newPosition(position),
 	}
 }
